@@ -24,6 +24,11 @@ func genAlnum(rng *rand.Rand, thorough bool) {
 			emit(string([]byte{byte(v), byte(w)}))
 		}
 	}
+	multiByteUnits(func(u string) {
+		emit(u)
+		emit("a" + u)
+		emit("1" + u + "2")
+	})
 	nr := 20000
 	if thorough {
 		nr = 500000
